@@ -12,7 +12,10 @@
     `loop_print`, `loop_eof`, `parse_cbody`.
   * `template_frame_spec`: the same inside `{template .name}` … `{/template}`: the exact items of the frame (`lex_frame`:
     `open_tag_run`, `lex_cbody_open`, `close_tag_run`) and the template node whose body list matches (`template_body`,
-    `parse_cbody_until`, `loop_close`).  Not covered: `{namespace}` and a soydoc in front.
+    `parse_cbody_until`, `loop_close`).
+  * `namespace_frame_spec`: a complete minimal file `{namespace ns}⏎{template .nm}` body `{/template}⏎` (`lex_nsfile`:
+    `ns_tag_run`, `frame_run`; `namespace_tag`, `textOrTag_begin`).  Not covered: a soydoc `/** */` in front of the template
+    (no exact lemmas for `lexSoyDoc`).
 -/
 import SoyVerif.Props.C17c
 import SoyVerif.Props.C15c
@@ -1163,6 +1166,373 @@ theorem template_frame_spec (nm : Bytes) (hnm : NameOk nm) (b : CBody) (hw : WFL
   simp only [StateT.run, FileParser.fuelFor, FileParser.exprFuel, Parser.fuelFor]
   rw [show 8 * (frameItems ff nm b).length + 64 = (8 * (frameItems ff nm b).length + 60 + 2 + 1) + 1 by omega] at hrun ⊢
   rw [hrun]
+  rfl
+
+end
+
+/-! # `{namespace n}` in front of the frame: a complete minimal file (without soydoc) -/
+
+/-- `namespace` -/
+def kwN : Bytes := [110, 97, 109, 101, 115, 112, 97, 99, 101]
+
+/-- `{namespace ` name `}` -/
+def nsTag (ns : Bytes) : Bytes := 123 :: (kwN ++ 32 :: (ns ++ [125]))
+
+/-- a (one-part) namespace name: an identifier that is no word of `builtinIdents` -/
+def IdentOk (ns : Bytes) : Prop :=
+  ∃ c k, ns = c :: k ∧ isIdStart c = true ∧ alnumBytes k = true ∧ Gen.builtinIdents.lookup (c :: k) = none
+
+/-- the items of `{namespace n}` at offset `q` -/
+def nsItems (q : Nat) (ns : Bytes) : List Item :=
+  [⟨.tLeftDelim, q + 1, [123]⟩, ⟨.tNamespace, q + 1 + kwN.length, kwN⟩,
+   ⟨.tIdent, q + 1 + kwN.length + 1 + ns.length, ns⟩,
+   ⟨.tRightDelim, q + 1 + kwN.length + 1 + ns.length + 1, [125]⟩]
+
+section
+variable (LT : LexTableOK)
+include LT
+
+/-- `{namespace n}` anywhere in the input, from any lexer record in `lexLeftDelim`: nine state functions -/
+theorem ns_tag_run {inp : Array UInt8} {q : Nat} (ns post : Bytes) (hns : IdentOk ns)
+    (hin : InpAt inp q (nsTag ns ++ post)) (w : Int) (dd : Bool) (ts : Int) (le : Item) (its : Array Item) (f : Nat) :
+    ∃ (w' : Int) (le' : Item) (its' : Array Item),
+      run (f + 9) .leftDelim (Lexer.mk inp q q w dd ts le its) =
+        run f .text (Lexer.mk inp ((q + 1 + kwN.length + 1 + ns.length + 1 : Nat) : Int)
+          ((q + 1 + kwN.length + 1 + ns.length + 1 : Nat) : Int) w' false (q : Int) le' its') ∧
+      its'.toList = its.toList ++ nsItems q ns := by
+  obtain ⟨c, k, rfl, hc, hk, hlook⟩ := hns
+  have h0 : InpAt inp q (123 :: 110 :: ([97, 109, 101, 115, 112, 97, 99, 101] ++ 32 :: ((c :: k) ++ 125 :: post))) := by
+    simpa [nsTag, kwN] using hin
+  have h1 : InpAt inp (q + 1) (kwN ++ (32 :: ((c :: k) ++ 125 :: post))) := by
+    have := inpAt_tail h0; simpa [kwN] using this
+  have h1' : InpAt inp (q + 1) (110 :: ([97, 109, 101, 115, 112, 97, 99, 101] ++ 32 :: ((c :: k) ++ 125 :: post))) := inpAt_tail h0
+  have h2 : InpAt inp (q + 1 + kwN.length) (32 :: ((c :: k) ++ 125 :: post)) := inpAt_append h1
+  have h3 : InpAt inp (q + 1 + kwN.length + 1) ((c :: k) ++ 125 :: post) := inpAt_tail h2
+  have h4 : InpAt inp (q + 1 + kwN.length + 1 + (c :: k).length) (125 :: post) := inpAt_append h3
+  obtain ⟨hq0, hb0⟩ := byteAt_of_inpAt h0
+  obtain ⟨hq1, hb1⟩ := byteAt_of_inpAt (inpAt_tail h0)
+  have hld := lexLeftDelim_any inp q w dd ts le its 110 (by omega) (by rw [hb0]; rfl) (by rw [hb1]; rfl) (by omega) (by omega)
+  have hex : (inp.extract q (q + 1)).toList = [123] := inpAt_extract (v := [123]) h0
+  rw [hex] at hld
+  have hw1 : Step2 (q : Int) inp (q + 1) ⟨.tLeftDelim, q + 1, [123]⟩ (its.push ⟨.tLeftDelim, q + 1, [123]⟩) ⟨.tNamespace, kwN⟩ :=
+    step_word LT (c := 110) (k := [97, 109, 101, 115, 112, 97, 99, 101]) (rest := 32 :: ((c :: k) ++ 125 :: post))
+      (by simpa [kwN] using h1) (by decide) (by decide) ⟨by decide, by decide⟩ .tNamespace
+      (Or.inl ⟨by decide, by decide, by decide⟩) _ _
+  obtain ⟨w1, hr1⟩ := run_of_step2 hw1 1 (f + 5)
+  have hw2 := step_word (tg := (q : Int)) LT h3 hc hk (rest := 125 :: post) ⟨by decide, by decide⟩ .tIdent (Or.inr ⟨hlook, rfl⟩)
+    (itemOf ⟨.tNamespace, kwN⟩ (q + 1 + kwN.length)) ((its.push ⟨.tLeftDelim, q + 1, [123]⟩).push (itemOf ⟨.tNamespace, kwN⟩ (q + 1 + kwN.length)))
+  obtain ⟨w2, hr2⟩ := run_of_step2 hw2 1 (f + 2)
+  refine ⟨1, ⟨.tRightDelim, q + 1 + kwN.length + 1 + (c :: k).length + 1, [125]⟩,
+    ((((its.push ⟨.tLeftDelim, q + 1, [123]⟩).push (itemOf ⟨.tNamespace, kwN⟩ (q + 1 + kwN.length))).push
+      (itemOf ⟨.tIdent, c :: k⟩ (q + 1 + kwN.length + 1 + (c :: k).length))).push
+      ⟨.tRightDelim, q + 1 + kwN.length + 1 + (c :: k).length + 1, [125]⟩), ?_, ?_⟩
+  · rw [show f + 9 = (((f + 5) + 2) + 1) + 1 by omega, C15c.run_succ (show step .leftDelim _ = _ from hld)]
+    have e1 : Lexer.mk inp ((q + 1 : Nat) : Int) ((q + 1 : Nat) : Int) 1 false (q : Int)
+        ⟨.tLeftDelim, q + 1, [123]⟩ (its.push ⟨.tLeftDelim, q + 1, [123]⟩) =
+        L (q : Int) inp (q + 1) (q + 1) 1 ⟨.tLeftDelim, q + 1, [123]⟩ (its.push ⟨.tLeftDelim, q + 1, [123]⟩) := rfl
+    rw [e1, run_step (step_beginTag h1' (by decide) (by decide) (by decide) 1 _ _), hr1]
+    unfold After
+    rw [show f + 5 = ((f + 2) + 2) + 1 by omega, run_step (step_space h2 w1 _ _), hr2]
+    unfold After
+    rw [show f + 2 = (f + 1) + 1 by omega, run_step (step_rbrace h4 w2 _ _), run_step (step_rightDelim h4 _ _)]
+    rfl
+  · simp [nsItems, itemOf]
+
+variable (ff : UInt64 → Bytes)
+
+/-- the frame `{template .nm}` body `{/template}` ANYWHERE in the input, from any lexer record in `lexLeftDelim` -/
+theorem frame_run (nm : Bytes) (hnm : NameOk nm) (b : CBody) (hw : WFL ff b) {inp : Array UInt8} {q : Nat} (post : Bytes)
+    (hin : InpAt inp q (openTag nm ++ (srcOfC ff b ++ (closeTag ++ post)))) (w : Int) (dd : Bool) (ts : Int) (le : Item)
+    (its : Array Item) (fuel : Nat) (hf : 7 * (srcOfC ff b).length + 1 + 14 ≤ fuel) :
+    ∃ (f' : Nat) (w' : Int) (tg' : Int) (le' : Item) (its' : Array Item), fuel ≤ f' + (7 * (srcOfC ff b).length + 1 + 14) ∧
+      run fuel .leftDelim (Lexer.mk inp q q w dd ts le its) =
+        run f' .text (Lexer.mk inp
+          ((q + 1 + kwT.length + 1 + (46 :: nm).length + 1 + (srcOfC ff b).length + 1 + (47 :: kwT).length + 1 : Nat) : Int)
+          ((q + 1 + kwT.length + 1 + (46 :: nm).length + 1 + (srcOfC ff b).length + 1 + (47 :: kwT).length + 1 : Nat) : Int)
+          w' false tg' le' its') ∧
+      its'.toList = its.toList ++ openItems q nm ++ itemsB ff (q + 1 + kwT.length + 1 + (46 :: nm).length + 1) b ++
+        closeItems (q + 1 + kwT.length + 1 + (46 :: nm).length + 1 + (srcOfC ff b).length) := by
+  have hol : (openTag nm).length = 1 + kwT.length + 1 + (46 :: nm).length + 1 := by simp [openTag]; omega
+  have hIB : InpAt inp (q + 1 + kwT.length + 1 + (46 :: nm).length + 1) (srcOfC ff b ++ 123 :: ((47 :: kwT) ++ [125] ++ post)) := by
+    have := inpAt_append hin; rw [hol] at this; simpa [closeTag, Nat.add_assoc] using this
+  have hIC : InpAt inp (q + 1 + kwT.length + 1 + (46 :: nm).length + 1 + (srcOfC ff b).length) (closeTag ++ post) := by
+    have := inpAt_append hIB; simpa [closeTag] using this
+  obtain ⟨F, rfl⟩ : ∃ F, fuel = F + 9 := ⟨fuel - 9, by omega⟩
+  obtain ⟨w2, le2, its2, hr2, hits2⟩ := open_tag_run LT nm (srcOfC ff b ++ (closeTag ++ post)) hnm hin w dd ts le its F
+  obtain ⟨f', w3, dd3, ts3, le3, its3, hf3, hr3, hits3⟩ := lex_cbody_open ff LT b hw inp _ w2 false _ le2 its2
+    ((47 :: kwT) ++ [125] ++ post) F hIB (by omega)
+  obtain ⟨g, rfl⟩ : ∃ g, f' = g + 5 := ⟨f' - 5, by omega⟩
+  obtain ⟨w4, le4, its4, hr4, hits4⟩ := close_tag_run LT post hIC w3 dd3 ts3 le3 its3 g
+  refine ⟨g, w4, _, le4, its4, by omega, by rw [hr2, hr3, hr4], ?_⟩
+  rw [hits4, hits3, hits2]
+
+end
+
+section
+variable (ff : UInt64 → Bytes)
+
+/-- `{namespace ns}⏎{template .nm}` body `{/template}⏎` -/
+def nsSrc (ns nm : Bytes) (b : CBody) : Bytes :=
+  nsTag ns ++ (10 :: (openTag nm ++ (srcOfC ff b ++ (closeTag ++ [10]))))
+
+/-- the offset of the `{` of the template tag -/
+def tplStart (ns : Bytes) : Nat := 0 + 1 + kwN.length + 1 + ns.length + 1 + 1
+
+/-- the items `lex` sends for that file (exact END offsets; the two line breaks are dropped) -/
+def nsFileItems (ns nm : Bytes) (b : CBody) : List Item :=
+  nsItems 0 ns ++ openItems (tplStart ns) nm ++ itemsB ff (tplStart ns + 1 + kwT.length + 1 + (46 :: nm).length + 1) b ++
+    closeItems (tplStart ns + 1 + kwT.length + 1 + (46 :: nm).length + 1 + (srcOfC ff b).length) ++
+    [⟨.tEOF, tplStart ns + 1 + kwT.length + 1 + (46 :: nm).length + 1 + (srcOfC ff b).length + 1 + (47 :: kwT).length + 1 + 1, []⟩]
+
+variable (LT : LexTableOK)
+include LT
+
+theorem lex_nsfile (ns nm : Bytes) (hns : IdentOk ns) (hnm : NameOk nm) (b : CBody) (hw : WFL ff b) :
+    lexAll (nsSrc ff ns nm b) false = .items (nsFileItems ff ns nm b) := by
+  let inp := (nsSrc ff ns nm b).toArray
+  have hI0 : InpAt inp 0 (nsTag ns ++ (10 :: (openTag nm ++ (srcOfC ff b ++ (closeTag ++ [10]))))) := ⟨[], by simp [inp, nsSrc], rfl⟩
+  have hnl : (nsTag ns).length = 1 + kwN.length + 1 + ns.length + 1 := by simp [nsTag]; omega
+  have hI1 : InpAt inp (0 + 1 + kwN.length + 1 + ns.length + 1) (10 :: (openTag nm ++ (srcOfC ff b ++ (closeTag ++ [10])))) := by
+    have := inpAt_append hI0; rw [hnl] at this; simpa [Nat.add_assoc] using this
+  have hI2 : InpAt inp (tplStart ns) (openTag nm ++ (srcOfC ff b ++ (closeTag ++ [10]))) := inpAt_tail hI1
+  have hol : (openTag nm).length = 1 + kwT.length + 1 + (46 :: nm).length + 1 := by simp [openTag]; omega
+  have hcl : closeTag.length = 1 + (47 :: kwT).length + 1 := by simp [closeTag]; omega
+  have hIE : InpAt inp (tplStart ns + 1 + kwT.length + 1 + (46 :: nm).length + 1 + (srcOfC ff b).length + 1 + (47 :: kwT).length + 1) [10] := by
+    have := inpAt_append (inpAt_append (inpAt_append hI2)); rw [hol, hcl] at this; simpa [Nat.add_assoc] using this
+  have hsz := inpAt_len hIE
+  simp only [List.length_cons, List.length_nil] at hsz
+  have h00 : InpAt inp 0 (123 :: (kwN ++ 32 :: (ns ++ [125]) ++ (10 :: (openTag nm ++ (srcOfC ff b ++ (closeTag ++ [10])))))) := by
+    simpa [nsTag] using hI0
+  obtain ⟨hq0, hb0⟩ := byteAt_of_inpAt h00
+  obtain ⟨hq1, hb1⟩ := byteAt_of_inpAt hI1
+  have hI2' : InpAt inp (tplStart ns) (123 :: (kwT ++ 32 :: ((46 :: nm) ++ [125]) ++ (srcOfC ff b ++ (closeTag ++ [10])))) := by
+    simpa [openTag] using hI2
+  obtain ⟨hq2, hb2⟩ := byteAt_of_inpAt hI2'
+  obtain ⟨hq3, hb3⟩ := byteAt_of_inpAt hIE
+  have hdrop : allSpaceWithNewline [10] = true := by
+    simp [allSpaceWithNewline, allSpaceLoop, Lex.decodeRune, byteAt, Lex.isSpaceEOL, Lex.isSpace, Lex.isEndOfLine]
+  have hc1 : (46 :: nm).length = nm.length + 1 := rfl
+  have hc2 : (47 :: kwT).length = kwT.length + 1 := rfl
+  have e2 : byteAt inp (0 + 1 + kwN.length + 1 + ns.length + 1 + 1) = 123 := by
+    have := hb2; unfold tplStart at this; simpa using this
+  -- `{` at 0
+  obtain ⟨w1, dd1, ts1, le1, its1, hlx, hits1⟩ := C15c.lexText_text_open inp 0 0 0 false 0 Item.zero #[] (by omega)
+    (fun i hi => absurd hi (by omega)) (by rw [hb0]; rfl)
+  unfold lexAll
+  simp only [Bool.false_eq_true, if_false]
+  have hN : (nsSrc ff ns nm b).length =
+      tplStart ns + 1 + kwT.length + 1 + (46 :: nm).length + 1 + (srcOfC ff b).length + 1 + (47 :: kwT).length + 1 + 1 := by
+    have : inp.size = (nsSrc ff ns nm b).length := by simp [inp]
+    omega
+  obtain ⟨F, hF⟩ : ∃ F, Lex.fuelFor (nsSrc ff ns nm b).length = ((F + 1) + 9) + 1 := ⟨Lex.fuelFor (nsSrc ff ns nm b).length - 11, by
+    unfold Lex.fuelFor; omega⟩
+  have hFb : 7 * (srcOfC ff b).length + 1 + 14 + 30 ≤ F := by
+    unfold Lex.fuelFor at hF; rw [hN] at hF; simp [tplStart] at hF; omega
+  have e0 : initLexer (nsSrc ff ns nm b) = Lexer.mk inp ((0 : Nat) : Int) ((0 : Nat) : Int) 0 false 0 Item.zero #[] := rfl
+  rw [hF, e0, C15c.run_succ (show step .text _ = _ from hlx)]
+  obtain ⟨w2, le2, its2, hr2, hits2⟩ := ns_tag_run LT ns _ hns hI0 w1 dd1 ts1 le1 its1 (F + 1)
+  simp only [Nat.add_zero] at hr2 ⊢
+  rw [hr2]
+  -- the line break
+  obtain ⟨w3, dd3, ts3, le3, its3, hlx3, hits3⟩ := C15c.lexText_text_open inp (0 + 1 + kwN.length + 1 + ns.length + 1) 1 w2 false
+    ((0 : Nat) : Int) le2 its2 (by unfold tplStart at hq2; omega)
+    (fun i hi => by
+      have : i = 0 := by omega
+      subst this
+      rw [Nat.add_zero, hb1, e2]; unfold C15c.TextByte; decide)
+    e2
+  rw [C15c.run_succ (show step .text _ = _ from hlx3)]
+  -- the frame
+  obtain ⟨f', w4, tg4, le4, its4, hf4, hr4, hits4⟩ := frame_run LT ff nm hnm b hw [10] hI2 w3 dd3 ts3 le3 its3 F (by omega)
+  have hr4' := hr4
+  unfold tplStart at hr4'
+  rw [hr4']
+  obtain ⟨g, rfl⟩ : ∃ g, f' = g + 1 := ⟨f' - 1, by omega⟩
+  obtain ⟨lf, hl1, hl2⟩ := C15c.lexText_text_eof inp
+    (tplStart ns + 1 + kwT.length + 1 + (46 :: nm).length + 1 + (srcOfC ff b).length + 1 + (47 :: kwT).length + 1) 1 w4 false tg4 le4 its4
+    (by omega)
+    (fun i hi => by
+      have : i = 0 := by omega
+      subst this
+      rw [Nat.add_zero, hb3, C15c.byteAt_beyond (by omega)]; unfold C15c.TextByte; decide)
+  have hl1' := hl1
+  unfold tplStart at hl1'
+  rw [C15c.run_end (show step .text _ = _ from hl1'), hl2, C15c.textItems_nat, hits4, hits3, hits2, hits1, C15c.textItems_nat,
+    C15c.textItems_nat]
+  have ex1 : (inp.extract (0 + 1 + kwN.length + 1 + ns.length + 1) (0 + 1 + kwN.length + 1 + ns.length + 1 + 1)).toList = [10] :=
+    inpAt_extract (v := [10]) hI1
+  have ex2 : (inp.extract (tplStart ns + 1 + kwT.length + 1 + (46 :: nm).length + 1 + (srcOfC ff b).length + 1 + (47 :: kwT).length + 1)
+      (tplStart ns + 1 + kwT.length + 1 + (46 :: nm).length + 1 + (srcOfC ff b).length + 1 + (47 :: kwT).length + 1 + 1)).toList = [10] :=
+    inpAt_extract (v := [10]) (s := []) hIE
+  rw [ex1, ex2]
+  simp [nsFileItems, hdrop]
+
+end
+
+section
+open SoyVerif.Model.FileParser (FState FP Node NodeList textOrTag itemListLoop skipComments beginTag parseFile parseSource)
+variable (ff : UInt64 → Bytes) (pf : Bytes → Option UInt64)
+
+/-- `textOrTag` handed a `{` whose command token is no until token: it is `beginTag`'s business -/
+theorem textOrTag_begin (ef f : Nat) (untl : List ItemType) (hu1 : untl.contains .tLeftDelim = false) (ld : Item)
+    (hld : ld.typ = .tLeftDelim) (t2 : Tk) (ht2 : untl.contains t2.typ = false) (s : List Tk) (st : FState)
+    (hst : At st.p (t2 :: s)) :
+    ∃ p3, At p3 (t2 :: s) ∧ ∀ (n : Option Node) (st' : FState), beginTag pf ef (f + 1) { st with p := p3 } = .ok (n, st') →
+      textOrTag pf ef (f + 2) ld untl st = .ok ((n, false), st') := by
+  obtain ⟨x2, p2, hn2, hty, hv, hj2⟩ := fnext_at hst
+  obtain ⟨p3, hb3, ha3⟩ := fbackup_just (st := { st with p := p2 }) hj2
+  rw [tk_eq hty hv] at ha3
+  refine ⟨p3, ha3.at, fun n st' hbt => ?_⟩
+  unfold textOrTag
+  simp only
+  rw [fbind_ok (skipComments_id f ld st (by rw [hld]; decide))]
+  simp only [hld, hu1, Bool.false_eq_true, if_false]
+  rw [fbind_ok hn2]
+  simp only [hty, ht2, Bool.and_false, Bool.false_eq_true, if_false]
+  rw [fbind_ok hb3]
+  simp only [show (ItemType.tLeftDelim == ItemType.tText) = false by decide, Bool.false_eq_true, if_false,
+    beq_self_eq_true, if_true]
+  rw [fbind_ok hbt]
+  rfl
+
+/-- `beginTag` on `namespace` name `}` (no namespace yet): the namespace node; the state remembers the name -/
+theorem namespace_tag (ef y : Nat) (nv name : Bytes) (rest : List Tk) (st : FState) (hns : st.ns = [])
+    (hst : At st.p (⟨.tNamespace, nv⟩ :: ⟨.tIdent, name⟩ :: tRD :: rest)) :
+    ∃ pos p', beginTag pf ef (y + 3) st = .ok (some (Node.nspace pos name .unspecified), { st with p := p', ns := name }) ∧
+      At p' rest := by
+  obtain ⟨sp, sns, sal, sim⟩ := st
+  simp only at hns hst
+  subst hns
+  obtain ⟨tt, p1, hn1, htt, _, hj1⟩ := fnext_at (st := { p := sp, ns := [], aliases := sal, inmsg := sim }) hst
+  have htt' : tt.typ = .tNamespace := htt
+  obtain ⟨idt, p2, hx2, _, hdv, hj2⟩ := fexpect_at (st := ({ p := p1, ns := [], aliases := sal, inmsg := sim } : FState)) hj1.at
+  have hdv' : idt.val = name := hdv
+  obtain ⟨r1, p3, hn3, hr1, hr1v, hj3⟩ := fnext_at (st := ({ p := p2, ns := [], aliases := sal, inmsg := sim } : FState)) hj2.at
+  have hr1' : r1.typ = .tRightDelim := hr1
+  obtain ⟨p4, hb4, ha4⟩ := fbackup_just (st := ({ p := p3, ns := [], aliases := sal, inmsg := sim } : FState)) hj3
+  rw [tk_eq hr1 hr1v] at ha4
+  obtain ⟨r2, p5, hn5, hr2, hr2v, hj5⟩ := fnext_at (st := ({ p := p4, ns := [], aliases := sal, inmsg := sim } : FState)) ha4.at
+  have hr2' : r2.typ = .tRightDelim := hr2
+  obtain ⟨p6, hb6, ha6⟩ := fbackup_just (st := ({ p := p5, ns := [], aliases := sal, inmsg := sim } : FState)) hj5
+  rw [tk_eq hr2 hr2v] at ha6
+  obtain ⟨_, p7, hx7, _, _, hj7⟩ := fexpect_at (st := ({ p := p6, ns := [], aliases := sal, inmsg := sim } : FState)) ha6.at
+  refine ⟨tt.pos, p7, ?_, hj7.at⟩
+  have hpa : FileParser.parseAttrs [FileParser.kAutoescape] (y + 1) [] ({ p := p4, ns := [], aliases := sal, inmsg := sim } : FState) = .ok ([], ({ p := p6, ns := [], aliases := sal, inmsg := sim } : FState)) := by
+    unfold FileParser.parseAttrs
+    rw [fbind_ok hn5]
+    simp only [hr2', show (ItemType.tRightDelim == ItemType.tIdent) = false by decide, Bool.false_eq_true, if_false,
+      beq_self_eq_true, Bool.true_or, if_true]
+    rw [fbind_ok hb6]
+    rfl
+  have hx2' : FileParser.expect .tIdent ({ p := p1, ns := [], aliases := sal, inmsg := sim } : FState) = .ok (idt, ({ p := p2, ns := [], aliases := sal, inmsg := sim } : FState)) := hx2
+  have hx7' : FileParser.expect .tRightDelim ({ p := p6, ns := [], aliases := sal, inmsg := sim } : FState) = .ok (_, ({ p := p7, ns := [], aliases := sal, inmsg := sim } : FState)) := hx7
+  have hloop : FileParser.namespaceLoop tt.pos (y + 1 + 1) idt.val ({ p := p2, ns := [], aliases := sal, inmsg := sim } : FState) =
+      .ok (Node.nspace tt.pos name .unspecified, { p := p7, ns := name, aliases := sal, inmsg := sim }) := by
+    unfold FileParser.namespaceLoop
+    rw [fbind_ok hn3]
+    simp only [hr1', show (ItemType.tRightDelim == ItemType.tDotIdent) = false by decide, Bool.false_eq_true, if_false]
+    rw [fbind_ok hb4, fbind_ok hpa]
+    simp only [FileParser.parseAutoescape, FileParser.lookup, List.find?_nil, Option.map_none, Option.getD_none,
+      beq_self_eq_true, if_true]
+    rw [fbind_ok (show (pure _ : FP Autoescape) ({ p := p6, ns := [], aliases := sal, inmsg := sim } : FState) = .ok (_, ({ p := p6, ns := [], aliases := sal, inmsg := sim } : FState)) from rfl)]
+    rw [fbind_ok hx7', hdv']
+    rfl
+  have hpn : FileParser.parseNamespace (y + 2) tt ({ p := p1, ns := [], aliases := sal, inmsg := sim } : FState) =
+      .ok (Node.nspace tt.pos name .unspecified, { p := p7, ns := name, aliases := sal, inmsg := sim }) := by
+    unfold FileParser.parseNamespace
+    rw [fbind_ok (show (get : FP FState) ({ p := p1, ns := [], aliases := sal, inmsg := sim } : FState) = .ok (({ p := p1, ns := [], aliases := sal, inmsg := sim } : FState), ({ p := p1, ns := [], aliases := sal, inmsg := sim } : FState)) from rfl)]
+    simp only [bne_self_eq_false, Bool.false_eq_true, if_false]
+    rw [fbind_ok hx2']
+    exact hloop
+  unfold beginTag
+  rw [fbind_ok hn1]
+  simp only [htt']
+  rw [fbind_ok hpn]
+  rfl
+
+end
+
+section
+open SoyVerif.Model.FileParser (FState FP Node NodeList textOrTag itemListLoop skipComments beginTag parseFile parseSource)
+variable (ff : UInt64 → Bytes) (pf : Bytes → Option UInt64) (LT : LexTableOK) (T : TableOK)
+include LT T
+
+/-- **`namespace_frame_spec`** — a complete minimal Soy file (without soydoc): `parse.SoyFile` on
+    `{namespace ns}⏎{template .nm}` ++ `srcOfC ff b` ++ `{/template}⏎`:
+
+    * the lexer sends exactly `nsFileItems ff ns nm b` — LeftDelim Namespace Ident RightDelim, LeftDelim Template DotIdent
+      RightDelim, the items of the body, LeftDelim TemplateEnd RightDelim, EOF (the two line breaks are dropped) — every
+      item at its exact END offset;
+    * the parser returns the namespace node and the template node named `ns.nm`, whose body list is the RawText / Print
+      nodes of the body in order, print nodes modulo positions (`NodesMatch`). -/
+theorem namespace_frame_spec (ns nm : Bytes) (hns : IdentOk ns) (hnm : NameOk nm) (b : CBody) (hw : WFL ff b)
+    (hc : CanonB ff pf b) :
+    lexAll (nsSrc ff ns nm b) false = .items (nsFileItems ff ns nm b) ∧
+      ∃ npos tpos lp nl, parseSource pf (nsSrc ff ns nm b) =
+          .ok [Node.nspace npos ns .unspecified, Node.template tpos (ns ++ 46 :: nm) (.list lp nl) .unspecified false] ∧
+        NodesMatch nl.toList b := by
+  have hl := lex_nsfile ff LT ns nm hns hnm b hw
+  refine ⟨hl, ?_⟩
+  have htk : (nsFileItems ff ns nm b).map Item.tk = ⟨.tLeftDelim, [123]⟩ :: ⟨.tNamespace, kwN⟩ :: ⟨.tIdent, ns⟩ :: tRD ::
+      ⟨.tLeftDelim, [123]⟩ :: ⟨.tTemplate, kwT⟩ :: ⟨.tDotIdent, 46 :: nm⟩ :: tRD ::
+      (tksB ff b ++ ⟨.tLeftDelim, [123]⟩ :: ⟨.tTemplateEnd, 47 :: kwT⟩ :: tRD :: [⟨.tEOF, []⟩]) := by
+    simp [nsFileItems, nsItems, openItems, closeItems, itemsB_tk, Item.tk, tRD]
+  have hlen : (tksB ff b).length + 12 = (nsFileItems ff ns nm b).length := by
+    have := congrArg List.length htk
+    simp at this; omega
+  have hfu := fuelB_of_lenB ff b (nsFileItems ff ns nm b).length (by omega)
+  have hst0 := at_init (nsFileItems ff ns nm b)
+  rw [htk] at hst0
+  generalize hY : 8 * (nsFileItems ff ns nm b).length + 59 = Y at *
+  have hEF : 8 * (nsFileItems ff ns nm b).length + 64 = Y + 2 + 2 + 1 := by omega
+  -- round 1: the namespace tag
+  obtain ⟨ld1, p1, hn1, hlt1, _, hj1⟩ := fnext_at (st := { p := initState (nsFileItems ff ns nm b) }) hst0
+  obtain ⟨p3, ha3, H1⟩ := textOrTag_begin pf (8 * (nsFileItems ff ns nm b).length + 64) (Y + 2) [.tEOF] (by decide) ld1 hlt1
+    ⟨.tNamespace, kwN⟩ (by decide) _ { p := p1 } hj1.at
+  obtain ⟨npos, p4, hbt1, ha4⟩ := namespace_tag pf (8 * (nsFileItems ff ns nm b).length + 64) Y kwN ns _ { p := p3 } rfl ha3
+  have hto1 := H1 _ _ hbt1
+  -- round 2: the template
+  obtain ⟨ld2, p5, hn2, hlt2, _, hj5⟩ := fnext_at (st := { p := p4, ns := ns }) ha4
+  obtain ⟨p6, ha6, H2⟩ := textOrTag_begin pf (8 * (nsFileItems ff ns nm b).length + 64) (Y + 1) [.tEOF] (by decide) ld2 hlt2
+    ⟨.tTemplate, kwT⟩ (by decide) _ { p := p5, ns := ns } hj5.at
+  obtain ⟨tpos, lp, nl, p7, hbt2, hm, ha7⟩ := template_body ff pf T (8 * (nsFileItems ff ns nm b).length + 64)
+    (2 * (nsFileItems ff ns nm b).length + 2) Y b hw hc hfu (by omega) kwT (47 :: kwT) (46 :: nm)
+    [⟨.tEOF, []⟩] { p := p6, ns := ns } ha6
+  have hto2 := H2 _ _ hbt2
+  -- round 3: EOF
+  have hrun2 : ∀ (lposA : Option Nat) (nodesA : NodeList), ∃ lp2 st',
+      itemListLoop pf (8 * (nsFileItems ff ns nm b).length + 64) ((Y + 1 + 2) + 1) [.tEOF] lposA nodesA { p := p4, ns := ns } =
+        .ok (.list lp2 (nodesA.append (.cons (Node.template tpos (ns ++ 46 :: nm) (.list lp nl) .unspecified false) .nil)), st') := by
+    intro lposA nodesA
+    obtain ⟨lp2, st5, hr5⟩ := loop_eof pf (8 * (nsFileItems ff ns nm b).length + 64) Y (some (lposA.getD ld2.pos))
+      (nodesA.append (.cons (Node.template tpos (ns ++ 46 :: nm) (.list lp nl) .unspecified false) .nil)) [] { p := p7, ns := ns } ha7
+    refine ⟨lp2, st5, ?_⟩
+    unfold itemListLoop
+    rw [fbind_ok hn2]
+    simp only
+    rw [fbind_ok hto2]
+    simp only [Bool.false_eq_true, if_false]
+    exact hr5
+  obtain ⟨lp2, st', hr2⟩ := hrun2 (some ((none : Option Nat).getD ld1.pos))
+    (NodeList.nil.append (.cons (Node.nspace npos ns .unspecified) .nil))
+  have hrun1 : itemListLoop pf (8 * (nsFileItems ff ns nm b).length + 64) ((Y + 2 + 2) + 1) [.tEOF] none .nil
+      { p := initState (nsFileItems ff ns nm b) } =
+      .ok (.list lp2 ((NodeList.nil.append (.cons (Node.nspace npos ns .unspecified) .nil)).append
+        (.cons (Node.template tpos (ns ++ 46 :: nm) (.list lp nl) .unspecified false) .nil)), st') := by
+    unfold itemListLoop
+    rw [fbind_ok hn1]
+    simp only
+    rw [fbind_ok hto1]
+    simp only [Bool.false_eq_true, if_false]
+    exact hr2
+  refine ⟨npos, tpos, lp, nl, ?_, hm⟩
+  unfold parseSource
+  rw [hl]
+  simp only
+  unfold parseFile
+  simp only [StateT.run, FileParser.fuelFor, FileParser.exprFuel, Parser.fuelFor]
+  rw [hEF] at hrun1 ⊢
+  rw [hrun1]
   rfl
 
 end
